@@ -645,6 +645,9 @@ PANIC_ALLOWED = {
     ('pointer::KanalPtr::<T>::new_owned', 'panic'): 'unreachable!(): dominated by size_of::<T>() <= pointer size',
     ('backoff::get_parallelism', 'Option::unwrap'): 'NonZeroUsize::new(1).unwrap() on a constant',
     ('internal::acquire_internal', 'Result::unwrap'): 'std-mutex poisoning only',
+    ('Receiver::<T>::recv_timeout', 'time-add'): 'deadline overflow only (same surface as checked_add().unwrap())',
+    ('Sender::<T>::send_timeout', 'time-add'): 'deadline overflow only (same surface as checked_add().unwrap())',
+    ('Sender::<T>::send_option_timeout', 'time-add'): 'deadline overflow only (same surface as checked_add().unwrap())',
     ('backoff::randomize', 'assert:RemainderByZero'): 'dead code: randomize() is not called by the library',
     ('backoff::spin_cond', 'assert:DivisionByZero'): 'SPINS / 2 with the constant divisor 2',
 }
